@@ -11,6 +11,7 @@ package main
 import (
 	"fmt"
 	"os"
+	"runtime/coverage"
 	"runtime/pprof"
 	"strings"
 	"sync"
@@ -371,6 +372,14 @@ func main() {
 		},
 	}
 	c.Finish("From KV Require Import C08.Model C08.Check.", "case", "check_all", 700)
+	if dir := os.Getenv("C08_COVDIR"); dir != "" { // coverage audit builds only (go build -cover)
+		if err := coverage.WriteMetaDir(dir); err != nil {
+			fmt.Fprintln(os.Stderr, "coverage meta:", err)
+		}
+		if err := coverage.WriteCountersDir(dir); err != nil {
+			fmt.Fprintln(os.Stderr, "coverage counters:", err)
+		}
+	}
 }
 
 func parallelism() int {
